@@ -12,12 +12,21 @@
 //! let _ = broadcast_queue_with::<usize, YieldingWait>(10, YieldingWait::new());
 //! let _ = broadcast_queue_with::<usize, BlockingWait>(10, BlockingWait::new());
 //! ```
+#[cfg(not(feature = "multiqueue2_verif"))]
 use std::sync::atomic::AtomicUsize;
+#[cfg(feature = "multiqueue2_verif")]
+use crate::verif_hooks::AtomicUsize;
 use std::sync::atomic::Ordering::Relaxed;
+#[cfg(not(feature = "multiqueue2_verif"))]
 use std::thread::yield_now;
+#[cfg(feature = "multiqueue2_verif")]
+use crate::verif_hooks::yield_now;
 
 use crate::countedindex::{past, rm_tag};
+#[cfg(not(feature = "multiqueue2_verif"))]
 extern crate parking_lot;
+#[cfg(feature = "multiqueue2_verif")]
+use crate::verif_hooks::parking_lot;
 
 pub const DEFAULT_YIELD_SPINS: usize = 50;
 pub const DEFAULT_TRY_SPINS: usize = 50;
@@ -313,4 +322,11 @@ mod test {
         test_waiter(BlockingWait::with_spins(0, 0));
     }
 
+}
+
+// Verification hook (off by default): contracts and proof harnesses kept outside the repository.
+#[cfg(feature = "multiqueue2_verif")]
+#[allow(dead_code, unused_imports, unused_variables, unused_mut)]
+mod verif_contracts {
+    include!(concat!(env!("MULTIQUEUE2_VERIF_DIR"), "/wait.rs"));
 }
